@@ -62,7 +62,7 @@ pub fn run(_sub: &str, opts: &Opts, w: &mut dyn Write) {
     idx += 1;
     if idx % nshards != shard { continue; }
     // A selects what the LDH instructions write: the timer bit, the vblank bit, or nothing
-    let a = *rng.pick(&[0x04u8, 0x04, 0x01, 0x00, 0x05]);
+    let a = *rng.pick(&[0x04u8, 0x04, 0x01, 0x00, 0x05, 0xe4, 0xe0, 0xff]);   // 0xe0 bits: the unconnected upper bits of IF / IE
     run_seq(s, ime, run, ifl, ie, a, w);
   }}}}
   // random longer sequences
@@ -73,7 +73,7 @@ pub fn run(_sub: &str, opts: &Opts, w: &mut dyn Write) {
     let s: Vec<usize> = (0..len).map(|_| rng.below(8) as usize).collect();
     let (ime, run) = (rng.below(3) as u32, rng.below(3) as u32);
     let &(ifl, ie) = rng.pick(&pend);
-    let a = *rng.pick(&[0x04u8, 0x01, 0x00, 0x1f]);
+    let a = *rng.pick(&[0x04u8, 0x01, 0x00, 0x1f, 0xe0, 0xe4, 0xff]);
     if idx % nshards != shard { continue; }
     run_seq(&s, ime, run, ifl, ie, a, w);
   }
